@@ -634,7 +634,7 @@ def strip_volatile(o):
     return o
 
 
-def run_history(case, ctx, compare_every=True, after_step=None):
+def run_history(case, ctx, compare_every=True, after_step=None, at_end=None):
     """after_step(g, model, step): called after every successful step on a closed, specified state
     (used by C11/C16 to judge neighbourhoods/topology after arbitrary histories)."""
     version = case["version"]
@@ -788,6 +788,8 @@ def run_history(case, ctx, compare_every=True, after_step=None):
                 # (a bystander here: the written content still follows the model, so the history goes
                 #  on and the property under check is judged by its own oracle)
                 compare_every = False
+    if at_end is not None:
+        at_end(g, model)
     return shape
 
 
@@ -875,6 +877,18 @@ def _lookup_oracle(ctx, g, model, st, si, version):
                           "after step %d %r: a placeholder for %r is kept although %s"
                           % (si, st, pn, "a line carries that identifier" if pn in want else "no line mentions it"),
                           prop="C09")
+            return
+    if ctx.prop == "C09" and any(m not in want and m.isdigit() for m in mentioned):
+        # an integer-looking identifier is referred to but not defined: unused_name() must not hand it out
+        try:
+            un = g.unused_name()
+        except Exception:
+            un = None
+        ctx.count("unused_names_asked_with_dangling_integer")
+        if un is not None and (un in want or un in mentioned):
+            ctx.violation("unused-name-in-use/%s" % ("carried" if un in want else "mentioned"),
+                          "after step %d %r: unused_name() returned %r; carried %r, mentioned %r"
+                          % (si, st, un, sorted(want), sorted(mentioned)), prop="C09")
             return
     freed = None
     if st["op"] == "rename":
